@@ -6,7 +6,7 @@ namespace VM.Driver
 
 def parseROp (j : Json) : Option ROp :=
   let i := getNat j "i"
-  let es := (getArr j "es").map optStr
+  let es := (getArr j "es").map fun x => (optStr x).map fun t => ({ tag := t } : Msg)
   let js := (getArr j "js").map fun x => (x.getNat?.toOption).getD 0
   match getStr j "op" with
   | "addErrors" => some (.addErrors i es)
@@ -15,15 +15,15 @@ def parseROp (j : Json) : Option ROp :=
   | "mergeAsErrors" => some (.mergeAsErrors i js)
   | "mergeAsWarnings" => some (.mergeAsWarnings i js)
   | "inc" => some (.inc i)
-  | "setErr" => some (.setErr i (getNat j "k") (getStr j "m"))
+  | "setErr" => some (.setErr i (getNat j "k") { tag := getStr j "m" })
   | "fresh" => some (.fresh i)
   | "setNil" => some (.setNil i)
   | _ => none
 
 def resToJson : Option Res → Json
   | none => Json.null
-  | some r => Json.mkObj [("e", Json.arr (r.errors.map Json.str).toArray),
-                          ("w", Json.arr (r.warnings.map Json.str).toArray),
+  | some r => Json.mkObj [("e", Json.arr (r.errors.map (fun m => Json.str m.tag)).toArray),
+                          ("w", Json.arr (r.warnings.map (fun m => Json.str m.tag)).toArray),
                           ("mc", Json.num (JsonNumber.fromInt r.mc)),
                           ("q", Json.arr #[Json.bool (isValid (some r)), Json.bool (hasErrors (some r)),
                                  Json.bool (hasWarnings (some r)), Json.bool (hasErrorsOrWarnings (some r))])]
